@@ -62,7 +62,10 @@ class ManifestPathEntry:
     """Base class for entries using a path"""
 
     __slots__ = ['path']
-    disallowed_path_re = re.compile(r'[\x00-\x1F\x7F-\x9F\s\\]', re.U)
+    # NB: surrogates stand for undecodable filename bytes (surrogateescape)
+    # and cannot be written to a UTF-8 file literally
+    disallowed_path_re = re.compile(
+        r'[\x00-\x1F\x7F-\x9F\s\\\uD800-\uDFFF]', re.U)
     escape_seq_re = re.compile(
         r'\\(x[0-9a-fA-F]{2}|u[0-9a-fA-F]{4}|U[0-9a-fA-F]{8})?')
 
@@ -77,11 +80,19 @@ class ManifestPathEntry:
                 f'Invalid escape sequence at pos {m.start()} '
                 f'of: {m.string}')
         try:
-            return chr(int(val[1:], base=16))
+            ret = chr(int(val[1:], base=16))
         except (ValueError, OverflowError):
             raise ManifestSyntaxError(
                 f'Escape sequence out of Unicode range at pos '
                 f'{m.start()} of: {m.string}')
+        # the only surrogates that can occur in a path are those
+        # standing for undecodable filename bytes (surrogateescape)
+        if ('\uD800' <= ret <= '\uDFFF'
+                and not '\uDC80' <= ret <= '\uDCFF'):
+            raise ManifestSyntaxError(
+                f'Escape sequence for a character invalid in paths '
+                f'at pos {m.start()} of: {m.string}')
+        return ret
 
     @classmethod
     def process_path(cls, data):
